@@ -1383,3 +1383,7 @@ def np_column_stack(interp, st, fr, args, kw):
 @model('matplotlib.collections.LineCollection')
 def mpl_linecollection(interp, st, fr, args, kw):
     return Opaque('LineCollection', (args[0] if args else None, kw.get('colors')))
+
+
+EXT['numpy.asarray'] = EXT['numpy.array']
+EXT['numpy.asanyarray'] = EXT['numpy.array']
